@@ -83,6 +83,18 @@ PROPS["C16"] = {
 
 DMAP_MODELLED = "internal/dmap/{put,get,delete,expire}.go and their handlers over abstract fragments (DMap/Model.lean); routing and time are inputs read from the running cluster"
 
+PROPS["C01"] = {
+    "lean": ["OlricModel.Props.C01", "OlricModel.Props.C09", "OlricModel.Props.C04"],
+    "streams": [("linear", (10, 10), (120, 20)), ("cluster", (4, 150), (40, 400))],
+    "model": True,
+    "level_text": "Theorem over a micro-step model of one key (owner + backup owners): a write is a critical section under the owner's fragment lock (begin with the condition decided on the owner's copy, one step per backup owner, the owner's copy last), a Get reads the owner's copy under the read lock and then asks each backup owner separately with no lock held. For EVERY interleaving of any number of writers' and readers' micro-steps, the version a Get answers with - whichever of the gathered versions it picks - is a value the abstract register held at some instant between the Get's first step and its answer, the register having one instant per write (C01_read_in_interval, invariant inv_step); conditional writes decide by the register's value at their instant (C01_write_decides_on_register); after a write every copy is the register (C01_quiescent). For a single register that is linearizability. With read-repair on the statement is false: Lean witness C01_read_repair_resurrects, replayed on the implementation and listed as known finding F14. The sequential meaning of each step (Put plain/NX/XX, Get, Delete through every entry point, multi-table fragments) is the DMap model of C04/C09/C15, run in lock-step by the cluster stream. Section shapes (lock scopes, order of backup and local writes, read lock of the owner read) are extracted from the source on every run (facts_tie). Tied to the code by the linear stream: a second operation started inside the first one at yield points of the harness build (Get vs Delete/Put, Put vs Get, Delete vs Get, conditional races, the janitor vs a Put), real concurrent histories, every key's history checked by a linearizability checker.",
+    "design_ref": "DESIGN.md §6 C01",
+    "modelled": DMAP_MODELLED + "; the critical sections of putOnCluster / deleteKey and the steps of getOnCluster as the micro-step model of Props/C01.lean",
+    "assumptions": ["atomicity of each micro-step (the fragment RW lock is a lock; a replica write is one message) is runtime behaviour, exercised by the real-concurrency histories",
+                    "timestamps of successive writes on the owner increase (wall clock); the theorem itself does not use which gathered version is picked",
+                    "ReadRepair off: with it on the property does not hold (F14)",
+                    "stable membership, every backup owner reachable, no expiry options (C09)"],
+}
 PROPS["C04"] = {
     "lean": ["OlricModel.Props.C04"],
     "streams": [("cluster", (12, 150), (150, 400))],
